@@ -143,8 +143,15 @@ class FrameItem(EFLRItem):
             If direction cannot be determined, it is assigned to None.
         """
 
+        if np.issubdtype(index_data.dtype, np.integer):
+            # differences of (narrow or unsigned) integers wrap around; all supported integer types fit in a float64
+            index_data = index_data.astype(np.float64)
+
         diff = np.diff(index_data)
         diff_unique = np.unique(diff)
+
+        if len(diff_unique) == 0:
+            return None, None  # a single row: neither spacing nor direction can be determined
 
         if (diff_unique == 0).all():
             direction = None  # all zeros ->not determined
